@@ -10,6 +10,8 @@ import (
 	"fmt"
 	"math/rand"
 	"strings"
+	"unicode/utf16"
+	"unicode/utf8"
 
 	"gopkg.in/yaml.v3"
 )
@@ -276,4 +278,76 @@ func Sugar(r *rand.Rand, text string, intensity float64) (string, Stats, bool) {
 		return text, Stats{}, false
 	}
 	return out, s.st, true
+}
+
+// Recode returns the document in another character encoding YAML allows: 0 = UTF-8 with byte order mark, 1 = UTF-16 little endian
+// with BOM, 2 = UTF-16 big endian with BOM. Validated like Sugar: both byte strings must decode to the same value.
+func Recode(text string, mode int) ([]byte, bool) {
+	if !utf8.ValidString(text) || strings.ContainsRune(text, 0) || strings.ContainsRune(text, 0xFEFF) {
+		return []byte(text), false
+	}
+	var out []byte
+	switch mode % 3 {
+	case 0:
+		out = append([]byte{0xEF, 0xBB, 0xBF}, text...)
+	case 1:
+		out = []byte{0xFF, 0xFE}
+		for _, u := range utf16.Encode([]rune(text)) {
+			out = append(out, byte(u), byte(u>>8))
+		}
+	default:
+		out = []byte{0xFE, 0xFF}
+		for _, u := range utf16.Encode([]rune(text)) {
+			out = append(out, byte(u>>8), byte(u))
+		}
+	}
+	a, e1 := decode(text)
+	var v any
+	e2 := yaml.Unmarshal(out, &v)
+	if e1 != nil || e2 != nil || a != fmt.Sprintf("%#v", v) {
+		return []byte(text), false
+	}
+	return out, true
+}
+
+// Markers puts explicit document markers around the (single) document of the text: `---` in front, `...` behind, or a trailing
+// `---` that opens a second document with nothing in it. Validated: the first document decodes to the same value and no further
+// document has content.
+func Markers(text string, mode int) (string, bool) {
+	if !strings.HasSuffix(text, "\n") || strings.HasPrefix(text, "---") || strings.HasPrefix(text, "%") {
+		return text, false
+	}
+	var out string
+	switch mode % 5 {
+	case 0:
+		out = "---\n" + text
+	case 1:
+		out = "--- # the one document\n" + text + "...\n"
+	case 2:
+		out = text + "...\n"
+	case 3:
+		out = text + "---\n"
+	default:
+		out = "---\n" + text + "---\n# nothing more\n"
+	}
+	a, e1 := decode(text)
+	dec := yaml.NewDecoder(strings.NewReader(out))
+	var first any
+	if err := dec.Decode(&first); err != nil || e1 != nil || fmt.Sprintf("%#v", first) != a {
+		return text, false
+	}
+	for {
+		var more any
+		err := dec.Decode(&more)
+		if err != nil {
+			if err.Error() == "EOF" {
+				break
+			}
+			return text, false
+		}
+		if more != nil {
+			return text, false
+		}
+	}
+	return out, true
 }
